@@ -62,6 +62,91 @@ theorem step2_good (inp : SelInput) (dl : List Nat) : ∀ sol ∈ step2 inp dl, 
       sol h
     simpa using this
 
+/-- step 2 is exhaustive: every extension of a combination of `dpath` by valid candidates of `others`, each passing
+the test against everything before it, is produced -/
+theorem step2_fold_complete (inp : SelInput) : ∀ (others : List Nat) (ext base : List Cand) (dpath : List (List Cand)),
+    base ∈ dpath → ext.map Prod.fst = others → (∀ c ∈ ext, c.2 < inp.ncand c.1) →
+    (base ++ ext).Pairwise (fun a b => inp.dis b a = true) →
+    base ++ ext ∈ others.foldl (fun dpath r =>
+        (candsOf inp r).flatMap (fun c1 =>
+          dpath.filterMap (fun cndt => if cndt.all (fun c => inp.dis c1 c) then some (cndt ++ [c1]) else none)))
+        dpath
+  | [], ext, base, dpath, hb, hm, _, _ => by
+    have : ext = [] := by simpa using hm
+    subst this; simpa using hb
+  | r :: others, [], _, _, _, hm, _, _ => by simp at hm
+  | r :: others, c :: ext, base, dpath, hb, hm, hv, hp => by
+    simp only [List.map_cons, List.cons.injEq] at hm
+    simp only [List.foldl_cons]
+    have hp' : ((base ++ [c]) ++ ext).Pairwise (fun a b => inp.dis b a = true) := by simpa using hp
+    have hall : base.all (fun a => inp.dis c a) = true := by
+      rw [List.all_eq_true]
+      intro a ha
+      have := (List.pairwise_append.1 hp).2.2 a ha c (by simp)
+      exact this
+    have hvc : c.2 < inp.ncand r := by have := hv c (by simp); rw [hm.1] at this; exact this
+    have hmem : base ++ [c] ∈ (candsOf inp r).flatMap (fun c1 =>
+        dpath.filterMap (fun cndt => if cndt.all (fun c => inp.dis c1 c) then some (cndt ++ [c1]) else none)) := by
+      simp only [List.mem_flatMap, List.mem_filterMap]
+      refine ⟨c, (mem_candsOf inp r c).2 ⟨hm.1, hvc⟩, base, hb, ?_⟩
+      rw [if_pos hall]
+    have := step2_fold_complete inp others ext (base ++ [c]) _ hmem hm.2
+      (fun x hx => hv x (List.mem_cons_of_mem _ hx)) hp'
+    rw [List.append_assoc, List.singleton_append] at this
+    exact this
+
+theorem step2_complete (inp : SelInput) (dl : List Nat) (sol : List Cand) (hne : dl ≠ [])
+    (hg : GoodCombo inp dl sol) (hv : ∀ c ∈ sol, c.2 < inp.ncand c.1) : sol ∈ step2 inp dl := by
+  cases dl with
+  | nil => exact absurd rfl hne
+  | cons r0 others =>
+    obtain ⟨hm, hp⟩ := hg
+    cases sol with
+    | nil => simp at hm
+    | cons c0 ext =>
+      simp only [List.map_cons, List.cons.injEq] at hm
+      have hv0 : c0.2 < inp.ncand r0 := by have := hv c0 (by simp); rw [hm.1] at this; exact this
+      have := step2_fold_complete inp others ext [c0] ((candsOf inp r0).map (fun c => [c]))
+        (List.mem_map.2 ⟨c0, (mem_candsOf inp r0 c0).2 ⟨hm.1, hv0⟩, rfl⟩) hm.2
+        (fun x hx => hv x (List.mem_cons_of_mem _ hx)) (by simpa using hp)
+      simpa [step2] using this
+
+theorem step2_fold_valid (inp : SelInput) : ∀ (others : List Nat) (dpath : List (List Cand)),
+    (∀ sol ∈ dpath, ∀ c ∈ sol, c.2 < inp.ncand c.1) →
+    ∀ sol ∈ others.foldl (fun dpath r =>
+        (candsOf inp r).flatMap (fun c1 =>
+          dpath.filterMap (fun cndt => if cndt.all (fun c => inp.dis c1 c) then some (cndt ++ [c1]) else none)))
+        dpath, ∀ c ∈ sol, c.2 < inp.ncand c.1
+  | [], dpath, h => by simpa using h
+  | r :: others, dpath, h => by
+    simp only [List.foldl_cons]
+    apply step2_fold_valid inp others
+    intro sol hsol c hc
+    simp only [List.mem_flatMap, List.mem_filterMap] at hsol
+    obtain ⟨c1, hc1, cndt, hcndt, hs⟩ := hsol
+    split at hs
+    · simp only [Option.some.injEq] at hs
+      subst hs
+      rcases List.mem_append.1 hc with hc | hc
+      · exact h cndt hcndt c hc
+      · simp only [List.mem_singleton] at hc; subst hc
+        have := (mem_candsOf inp r c).1 hc1
+        rw [this.1]; exact this.2
+    · simp at hs
+
+theorem step2_valid (inp : SelInput) (dl : List Nat) : ∀ sol ∈ step2 inp dl, ∀ c ∈ sol, c.2 < inp.ncand c.1 := by
+  cases dl with
+  | nil => intro sol h; simp [step2] at h
+  | cons r0 others =>
+    intro sol h
+    apply step2_fold_valid inp others ((candsOf inp r0).map (fun c => [c])) _ sol h
+    intro s hs c hc
+    simp only [List.mem_map] at hs
+    obtain ⟨c0, hc0, rfl⟩ := hs
+    simp only [List.mem_singleton] at hc; subst hc
+    have := (mem_candsOf inp r0 c).1 hc0
+    rw [this.1]; exact this.2
+
 /-! ### table updates that only remove combinations keep the table good -/
 
 theorem goodTable_map (inp : SelInput) (groups : List (Nat × List Nat)) (cands : List (Nat × List (List Cand)))
